@@ -223,6 +223,37 @@ def run(ctx):
             mon.verdict.clear()
             if i < 2:
                 ctx.sample("engine", {"fll": str(E.build(fl, spec))[:1200], "removable": [list(x) for x in items], "subsets_tried": len(subsets)})
+        # engines with disabled variables, rule blocks and rules: which operators are still needed is not derived here (a
+        # disabled component may make a missing operator harmless), so only "ready implies processable" is judged
+        for i, rnd in ctx.cases("disabled-components", ctx.scale(60, 4000)):
+            spec = E.gen_engine(rnd, activations=("General",), flags=True, locks=True, d=3, resolutions=[5, 10], max_depth=2, allow_output_antecedent=True, free_weights=True, routes=True)
+            for part in rnd.sample(spec["inputs"] + spec["outputs"] + spec["blocks"], 1):
+                part["enabled"] = False
+            items = removable(spec)
+            subsets = [c for r in range(len(items) + 1) for c in itertools.combinations(items, r)]
+            if len(subsets) > cap // 2:
+                subsets = subsets[: 1 + len(items)] + rnd.sample(subsets[1 + len(items) :], cap // 2 - 1 - len(items))
+            rows = E.finite_rows(rnd, spec, 2)
+            keep = []
+            for removed in subsets:
+                try:
+                    engine = E.build(fl, apply_removal(spec, removed))
+                except Exception as ex:
+                    ctx.hit(f"inconclusive:engine does not build: {type(ex).__name__}")
+                    continue
+                keep.append(engine)
+                mon.needs[id(engine)] = []
+                engine.is_ready()
+                for row in rows:
+                    for v, x in zip(engine.input_variables, row):
+                        v.value = x
+                    try:
+                        engine.process()
+                    except Exception:
+                        pass  # judged by the monitor
+            ctx.hit("workload:engines with disabled components")
+            mon.needs.clear()
+            mon.verdict.clear()
         # one weighted defuzzifier object shared by output variables of different kinds (as Engine.configure does), processed
         # repeatedly: a ready engine must stay processable whatever the defuzzifier saw before
         for i, rnd in ctx.cases("shared-defuzzifier", ctx.scale(30, 600)):
@@ -249,7 +280,7 @@ def run(ctx):
             ctx.hit("workload:shared defuzzifier object")
         probe.report(ctx)
         reach.report(ctx)
-    ctx.require("workload:shared defuzzifier object")
+    ctx.require("workload:shared defuzzifier object", "workload:engines with disabled components")
     ctx.require("hook:Engine.is_ready", "hook:Engine.process", "event:is_ready:True", "event:is_ready:False", "event:process after ready", "converse:conjunction", "converse:disjunction", "converse:implication", "converse:aggregation", "converse:defuzzifier", "raise-site:Antecedent.activation_degree:missing operator surfaced", "raise-site:OutputVariable.defuzzify:missing operator surfaced")
 
 
